@@ -45,7 +45,9 @@ func main() {
 			}()
 			p.Run(r)
 		}()
-		os.Exit(r.Finish())
+		rc := r.Finish()
+		core.RemoveWorkDirs()
+		os.Exit(rc)
 	case "replay":
 		b, err := os.ReadFile(os.Args[2])
 		if err != nil {
@@ -95,7 +97,9 @@ func main() {
 			fmt.Fprintf(os.Stderr, "no child body for %s\n", os.Args[2])
 			os.Exit(2)
 		}
-		os.Exit(p.Child(os.Args[3:]))
+		rc := p.Child(os.Args[3:])
+		core.RemoveWorkDirs()
+		os.Exit(rc)
 	default:
 		fmt.Fprintln(os.Stderr, "unknown sub-command")
 		os.Exit(2)
